@@ -8,6 +8,8 @@ require (
 	github.com/hashicorp/eventlogger v0.2.10
 	github.com/hashicorp/eventlogger/filters/encrypt v0.1.8
 	github.com/hashicorp/go-kms-wrapping/v2 v2.0.18
+	golang.org/x/crypto v0.32.0
+	google.golang.org/protobuf v1.36.4
 )
 
 require (
@@ -26,8 +28,6 @@ require (
 	github.com/pmezard/go-difflib v1.0.0 // indirect
 	github.com/ryanuber/go-glob v1.0.0 // indirect
 	github.com/stretchr/testify v1.10.0 // indirect
-	golang.org/x/crypto v0.32.0 // indirect
-	google.golang.org/protobuf v1.36.4 // indirect
 	gopkg.in/yaml.v3 v3.0.1 // indirect
 )
 
